@@ -409,6 +409,14 @@ func (env *Env) ident(name string) Val {
 				return env.fr.args[i]
 			}
 		}
+		// captured variable of a function literal: read through the capturing pointer
+		for _, fv := range fn.FreeVars {
+			if fv.Name() == name {
+				if pv, ok := env.fr.regs[fv].(PtrV); ok {
+					return env.pureLoad(pv)
+				}
+			}
+		}
 	}
 	if env.pkg != nil {
 		if o := env.pkg.Scope().Lookup(name); o != nil {
@@ -599,7 +607,16 @@ func (env *Env) mapRead(m Scalar, mt *types.Map, key Val, wantHas bool) Val {
 	if !ok {
 		env.fail("map with composite key in contract")
 	}
-	kt := e.scalar(key)
+	if av, ok := key.(ArrayV); ok && av.E != nil {
+		if et, ok := pairKeyElem(mt.Key()); ok {
+			te := make([]Val, len(av.E))
+			for i, x := range av.E {
+				te[i] = env.typed(x, et)
+			}
+			key = ArrayV{Ty: mt.Key(), E: te}
+		}
+	}
+	kt := e.mapKeyTerm(mt, key)
 	hk, vk := mapKeys(mt)
 	hm := e.heapGetRaw(env.st, hk, SArr(e.rs(), SArr(ks, SBool)))
 	has := And(Not(Eq(m.T, e.ridLit(0))), Select(Select(hm, m.T), kt))
@@ -796,6 +813,9 @@ func (env *Env) callExpr(n *ast.CallExpr) Val {
 			}
 			c, _ := e.ar.BinOp(op, as.T, bs.T, as.Ty, bs.Ty)
 			return Scalar{Ite(c, as.T, bs.T), as.Ty}
+		case "pair":
+			// pair(a, b): the value [2]T{a, b}, usable as a map key
+			return ArrayV{E: []Val{env.eval(n.Args[0]), env.eval(n.Args[1])}}
 		case "has":
 			// has(m, k): key present in map
 			m := env.eval(n.Args[0]).(Scalar)
